@@ -480,3 +480,21 @@ Definition handle_tracker_resp (m : mgr) (peers : list (addr * bytes)) : mgr * l
   let am_int := len (filter (fun kp => p_am_interested (snd kp)) (m_peers m)) in
   let want := MAX_UNCHOKED + MAX_OPTIMISTIC in
   spawn_n (N.to_nat (want - am_int)) m1 [].
+
+(* ---- choose_piece_index with the shuffle made explicit ------------------------------------ *)
+(* rarest: (piece_index, count) for the desired pieces, in index order *)
+Definition rarest_list (m : mgr) : list (nat * N) :=
+  map (fun i => (i, count_have m i)) (filter (desired m) (indices m)).
+(* sort_by count, stable (elements are inserted from the right) *)
+Fixpoint insert_cnt (x : nat * N) (l : list (nat * N)) : list (nat * N) :=
+  match l with
+  | [] => [x]
+  | y :: r => if snd x <=? snd y then x :: l else y :: insert_cnt x r
+  end.
+Definition sort_cnt (l : list (nat * N)) : list (nat * N) := fold_right insert_cnt [] l.
+(* `shuffled` is rarest_list after rarest.shuffle(..): any permutation of it *)
+Definition choose_with (shuffled : list (nat * N)) (p : peer) : option N :=
+  match find (fun ic => (0 <? snd ic) && nth (fst ic) (p_pieces p) false) (sort_cnt shuffled) with
+  | Some (i, _) => Some (N.of_nat i)
+  | None => None
+  end.
